@@ -311,8 +311,8 @@ func (c *Conn) WaitParked(d time.Duration) string {
 		if c.closed {
 			return "closed"
 		}
-		if c.parked && len(c.in) == 0 {
-			return "parked"
+		if c.parked && (len(c.in) == 0 || c.stalled) {
+			return "parked" // (in a stall, buffered bytes are not deliverable)
 		}
 		if !time.Now().Before(deadline) {
 			return "timeout"
